@@ -44,6 +44,45 @@ def _json_equal(a, b):
     return a == b
 
 
+def current_config(el):
+    """The element's current configuration as a dump.  A property that carries no explicit `source` is looked up by
+    the name it is stored under (the library fills `source` in lazily, when the property is bound); the dump states
+    that key explicitly, so that the configuration reads the same before and after the binding."""
+    dump = core.dump_elem(el)
+
+    def walk(d):
+        if isinstance(d, dict):
+            for key, sub in d.get("props", []):
+                if "source" not in key:
+                    key["source"] = key["name"]
+            for k, v in d.items():
+                if k != "kw":  # literals (const / enum / default) are data, not configuration structure
+                    walk(v)
+        elif isinstance(d, list):
+            for v in d:
+                walk(v)
+    walk(dump)
+    return dump
+
+
+PROBE_LEAVES = [1, "s", None, True, 1.5, [], {}, "aa", 0, [1]]
+
+
+def property_probes(rng, config, n, stats):
+    """Objects that use the lookup keys of currently declared properties (one or two of them, sometimes next to an
+    undeclared key): whether a key is a declared property, and what its element accepts, is the part of the verdict
+    that adding / replacing / removing properties changes."""
+    keys = [key.get("source") or key["name"] for key, _ in config.get("props", [])]
+    out = []
+    for _ in range(n if keys else 0):
+        obj = {k: rng.choice(PROBE_LEAVES) for k in rng.sample(keys, min(len(keys), rng.choice([1, 1, 2])))}
+        if rng.random() < 0.25:
+            obj["zz"] = rng.choice(PROBE_LEAVES)
+        out.append(obj)
+        stats["property-probe-values"] = stats.get("property-probe-values", 0) + 1
+    return out
+
+
 def reconfig_ops(rng, el, dg):
     """One random reconfiguration step applied to the real element; returns a description."""
     ops = []
@@ -96,10 +135,12 @@ def reconfig_ops(rng, el, dg):
         return f"set {name}"
     k2 = rng.random()
     names = list(props)
-    if k2 < 0.35 or not names:
-        n = rng.choice(["a", "b", "c", "a_b", "n1"])
+    if k2 < 0.22 or not names:
+        n = rng.choice(NEW_NAMES)
         props[n] = Property(dsl.build(dg.leaf()), required=rng.random() < 0.4)
         return f"properties[{n}] = ..."
+    if k2 < 0.40:
+        return mapping_method_op(rng, el, props, dg)
     if k2 < 0.5:
         n = rng.choice(names)
         del props[n]
@@ -116,10 +157,65 @@ def reconfig_ops(rng, el, dg):
     return "properties = {...}"
 
 
+NEW_NAMES = ["a", "b", "c", "a_b", "n1"]
+
+
+def mapping_method_op(rng, el, props, dg):
+    """`properties` is a mutable mapping: properties are also added / replaced / removed through the mapping methods other
+    than item assignment and `del` (`update` in its three call shapes, `setdefault`, `|=` on the container and on the
+    attribute, `|` + reassignment, `pop`, `popitem`, `clear`).  New `Property` objects are fresh (never bound before);
+    some carry an explicit `source=`, most do not (then the key they are stored under is the key they are looked up by)."""
+    def fresh_prop(n):
+        source = None
+        if rng.random() < 0.2:
+            source = rng.choice([n, n + "_src"])
+        return Property(dsl.build(dg.leaf()), required=rng.random() < 0.3, source=source)
+
+    names = list(props)
+    how = rng.choice(["update-dict", "update-kwargs", "update-pairs", "setdefault", "ior-container", "ior-attribute",
+                      "or-reassign", "pop", "popitem", "clear"])
+    if how in ("pop", "popitem", "clear") and not names:
+        how = "update-dict"
+    if how == "pop":
+        n = rng.choice(names + ["zz"])
+        props.pop(n, None)
+        return f"properties.pop {n}"
+    if how == "popitem":
+        n, _ = props.popitem()
+        return f"properties.popitem {n}"
+    if how == "clear":
+        props.clear()
+        return "properties.clear"
+    # additions: one or two entries; a name may be new (add) or present already (replace; for setdefault: no change)
+    pool = NEW_NAMES + names
+    new = {}
+    for _ in range(rng.choice([1, 1, 2])):
+        n = rng.choice(pool)
+        new[n] = fresh_prop(n)
+    keys = ",".join(new)
+    if how == "update-dict":
+        props.update(new)
+    elif how == "update-kwargs" and all(n.isidentifier() for n in new):
+        props.update(**new)
+    elif how == "update-pairs" or how == "update-kwargs":
+        how = "update-pairs"
+        props.update(list(new.items()))
+    elif how == "setdefault":
+        for n, p in new.items():
+            props.setdefault(n, p)
+    elif how == "ior-container":
+        props |= new
+    elif how == "ior-attribute":
+        el.properties |= new
+    else:
+        el.properties = el.properties | new
+    return f"properties.{how} {keys}"
+
+
 def compare(drv, el, values, out, stats, history, origin):
     """Model's answers for the current configuration vs the real element vs a fresh element."""
     try:
-        dump = core.dump_elem(el)
+        dump = current_config(el)
         enc_vals = [core.enc_arg(v) for v in values]
     except (TypeError, ValueError, RecursionError):
         stats["undumpable"] = stats.get("undumpable", 0) + 1
@@ -163,7 +259,7 @@ def compare(drv, el, values, out, stats, history, origin):
                 out.failures.append({"case": case, "what": f"accepted {v!r} although the current const is {dsl.dec_val(ckw['const'])!r}", "finding": None})
     # the configuration is what the reconfiguration steps made it: calls must not have moved it
     try:
-        after = core.dump_elem(el)
+        after = current_config(el)
     except Exception:  # noqa: BLE001
         after = dump
     if after != dump:
@@ -176,7 +272,9 @@ def run(ctx, scale=1.0):
     rng = random.Random(ctx["seed"] + 13)
     out = Outcome()
     out.rule = ("histories of 8-12 steps on DSL-built elements and model classes: each step is a reconfiguration (one of 24 keyword "
-                "assignments, property add/replace/delete/flag flip/element swap, whole-mapping replacement) followed by 5 calls; "
+                "assignments, property add/replace/delete/flag flip/element swap, whole-mapping replacement, the mapping methods of the "
+                "properties container: update (dict / keywords / pairs), setdefault, |= on the container and on the attribute, | and "
+                "reassignment, pop, popitem, clear) followed by calls on generated values, objects probing the declared property keys and fixed values; "
                 "a case is one call with its history; non-trivial = made after at least one reconfiguration; distinct by SHA-256")
     stats = {}
     drv = core.Driver()
@@ -208,10 +306,11 @@ def run(ctx, scale=1.0):
                 history.append(desc)
                 stats[desc.split(" ")[0].split("[")[0]] = stats.get(desc.split(" ")[0].split("[")[0], 0) + 1
                 try:
-                    schema = dump_to_schema(core.dump_elem(el))
+                    config = current_config(el)
+                    schema = dump_to_schema(config)
                 except Exception:  # noqa: BLE001
-                    schema = {}
-                compare(drv, el, vg.values(schema, 4) + [{"a": 1}, core.NP, True, 1, 1.0, 0, False], out, stats, history, origin)
+                    config, schema = {}, {}
+                compare(drv, el, vg.values(schema, 4) + property_probes(rng, config, 2, stats) + [{"a": 1}, core.NP, True, 1, 1.0, 0, False], out, stats, history, origin)
         # compositions over overlapping branches: which branch answers must depend on the value and the configuration only
         strict = {"cls": "Object", "name": "Strict", "kw": {"hasProps": True, "addPropsB": False}, "props": [[{"name": "value", "source": "value"}, {"cls": "Integer", "kw": {}}]]}
         loose = {"cls": "Object", "name": "Loose", "kw": {"hasProps": True}, "props": [[{"name": "value", "source": "value"}, {"cls": "Integer", "kw": {}}],
